@@ -104,13 +104,16 @@ Section Spec.
 
   (* C04: a conforming keyword call: CPython accepts it, no declared parameter is passed positionally,
      every declared parameter is annotated and every supplied value conforms *)
-  Definition c04_call_ok (f : fn) (c : call) : bool :=
+  Definition c04_args_ok (f : fn) (c : call) : bool :=
     match twin_binding f c with
     | Ok b => named_by_keyword f b && forallb (fun av => good (fst av) (snd av)) (supplied_of f c b)
     | Raise _ => false
     end
-    && forallb (fun p => match p_ann p with Some a => supported ctx a | None => false end) (declared f)
-    && match f_ret f with Some a => supported ctx a | None => false end.
+    && forallb (fun p => match p_ann p with Some a => supported ctx a | None => false end) (declared f).
+  (* ... and the return annotation is in the vocabulary (generator functions: the annotation is typing.Generator /
+     Iterator / Iterable, judged by its yield / send / return types instead) *)
+  Definition c04_call_ok (f : fn) (c : call) : bool :=
+    c04_args_ok f c && match f_ret f with Some a => supported ctx a | None => false end.
   Definition c04_result_ok (f : fn) (r : outcome value) : bool :=
     match r with Ok v => good (f_ret f) v | Raise _ => true end.
 
